@@ -653,6 +653,7 @@ static void buildSchema(SchemaCtx& sc, vh::Rng& rng, bool rich) {
   sc.add("D8", CstType::term, "\xE2\x88\x85");                            // B(R0)
   sc.add("F1", CstType::function, "[\xCE\xB1\xE2\x88\x88\xE2\x84\xAC(R1), \xCE\xB2\xE2\x88\x88R1] \xCE\xB1\\{\xCE\xB2}");   // [α∈ℬ(R1), β∈R1] α\{β}
   sc.add("F2", CstType::function, "[\xCF\x83\xE2\x88\x88\xE2\x84\xAC(R1\xC3\x97R2)] Pr1(\xCF\x83)");                          // [σ∈ℬ(R1×R2)] Pr1(σ)
+  sc.add("F6", CstType::function, "[\xCE\xB1\xE2\x88\x88\xE2\x84\xAC(R1), \xCE\xB2\xE2\x88\x88\xE2\x84\xAC(R1)] \xCE\xB1\xE2\x88\xAA\xCE\xB2");       // [α∈ℬ(R1), β∈ℬ(R1)] α∪β
   sc.add("P1", CstType::predicate, "[a\xE2\x88\x88X1, b\xE2\x88\x88\xE2\x84\xAC(X1)] a\xE2\x88\x88" "b");                   // [a∈X1, b∈ℬ(X1)] a∈b
   sc.refresh();
   const int nF = rich ? rng.range(1, 3) : 0;
@@ -683,6 +684,7 @@ static void buildFake(FakeEnv& env, CtxView& cv) {
   put("A1", LogicT{});
   put("F1", TC(TB("R1"))); env.data["F1"].args = rslang::FunctionArguments{ rslang::TypedID{ "a", TC(TB("R1")) }, rslang::TypedID{ "b", TB("R1") } };
   put("F2", TB("R2")); env.data["F2"].args = rslang::FunctionArguments{ rslang::TypedID{ "a", TC(TT({ TB("R1"), TB("R2") })) }, rslang::TypedID{ "b", TB("R1") } };
+  put("F6", TC(TB("R1"))); env.data["F6"].args = rslang::FunctionArguments{ rslang::TypedID{ "a", TC(TB("R1")) }, rslang::TypedID{ "b", TC(TB("R1")) } };
   put("F3", TC(TB("C1"))); env.data["F3"].args = rslang::FunctionArguments{ rslang::TypedID{ "a", TB("C1") } };
   put("P1", LogicT{}); env.data["P1"].args = rslang::FunctionArguments{ rslang::TypedID{ "a", TB("X1") }, rslang::TypedID{ "b", TC(TB("X1")) } };
   env.data["F4"].args = rslang::FunctionArguments{ rslang::TypedID{ "a", TB("X1") } };   // arguments but no type
@@ -732,6 +734,11 @@ static const Fixed CORPUS[] = {
   { "\xE2\x88\x80x\xE2\x88\x88" "D8 x=1", "fixed", false }, { "\xE2\x88\x80x\xE2\x88\x88" "D8 pr1(x)=1", "fixed", false }, { "D{x\xE2\x88\x88" "D8 | x\xE2\x88\x88X1}", "fixed", false },
   { "F1[\xE2\x88\x85, 1]", "fixed", false }, { "F1[\xE2\x88\x85, \xE2\x88\x85]", "fixed", false }, { "F1[X1, debool(X1)]", "fixed", false }, { "F1[Z, 1]", "fixed", false },
   { "F2[S1]", "fixed", false }, { "F2[\xE2\x88\x85]", "fixed", false }, { "F2[X1\xC3\x97\xE2\x84\xAC(X2)]", "fixed", false },
+  // template parameters that meet only the any-type (found through seeded change C03-1)
+  { "F6[\xE2\x88\x85, \xE2\x88\x85]", "K8:template-any", true }, { "F6[\xE2\x88\x85, \xE2\x88\x85]\xE2\x88\xAAX1", "K8:template-any", true }, { "F6[\xE2\x88\x85, X1]", "fixed", false }, { "F6[X1, \xE2\x88\x85]", "fixed", false },
+  { "F6[F6[\xE2\x88\x85, \xE2\x88\x85], X1]", "K8:template-any", true }, { "D7:==F6[\xE2\x88\x85, \xE2\x88\x85]", "K8:template-any", true }, { "F6[\xE2\x88\x85, \xE2\x88\x85]=X1", "K8:template-any", true },
+  { "F2[\xE2\x88\x85]\xE2\x88\xAAX1", "K8:template-any", true }, { "F2[\xE2\x88\x85]=X1", "K8:template-any", true }, { "F1[F2[\xE2\x88\x85], debool(X1)]", "K8:template-any", true },
+  { "[a\xE2\x88\x88\xE2\x84\xAC(R1)] F6[a, \xE2\x88\x85]", "fixed", false }, { "[a\xE2\x88\x88R1] F6[\xE2\x88\x85, \xE2\x88\x85]\xE2\x88\xAA{a}", "K8:template-any", true },
   { "R{a:=\xE2\x88\x85 | a\xE2\x88\xAAX1}", "fixed", false }, { "R{a:=\xE2\x88\x85 | {a}}", "fixed", false }, { "R{a:=X1 | a\xE2\x88\xAA\xE2\x88\x85}", "fixed", false },
   { "R{(a,b):=(\xE2\x88\x85,\xE2\x88\x85) | (a\xE2\x88\xAAX1, b\xE2\x88\xAAX2)}", "fixed", false }, { "R{a:=0 | a<10 | a+1}", "fixed", false }, { "R{a:=\xE2\x88\x85 | card(a)<3 | a\xE2\x88\xAA{a}}", "fixed", false },
   { "I{(a, b) | a:\xE2\x88\x88X1; b:=a}", "fixed", false }, { "I{a | a:\xE2\x88\x88X1; a:\xE2\x88\x88X1}", "fixed", false }, { "I{a | a:\xE2\x88\x88X1; a=a}", "fixed", false },
